@@ -25,11 +25,34 @@ def gen_case(seed, i, feat, ninputs=3):
     return prog, inputs
 
 
+OPS13 = ["+", "-", "*", "/", "%", "<", "<=", ">", ">=", "==", "!=", "&&", "||"]
+
+
+def family():
+    """Deterministic family: every operator on every combination of declared type (int/float) and
+    initialiser kind (int literal, float literal, int parameter, float parameter) of its two operands -
+    the declared type of a variable and the representation of the value stored in it can differ
+    (float x = 7), and the operation must follow the declared types."""
+    inits = [("li", A.lit_i(7)), ("lf", A.lit_f(5, 1)), ("pa", A.var("a")), ("pb", A.var("b"))]
+    out = []
+    for op in OPS13:
+        for t1 in (A.INT, A.FLOAT):
+            for t2 in (A.INT, A.FLOAT):
+                for n1, e1 in inits:
+                    for n2, e2 in inits:
+                        body = A.block([A.decl("x", t1, e1), A.decl("y", t2, e2), A.ret(A.bin_(op, A.var("x"), A.var("y")))])
+                        prog = A.prog([], [A.func("f", [("a", A.INT), ("b", A.FLOAT)], A.FLOAT, body, True)])
+                        inputs = [({"a": A.enc(a, A.INT), "b": A.enc(b, A.FLOAT)}, {}) for a, b in ((7, 2.0), (3, 0.5), (-5, 4.0))]
+                        out.append((prog, inputs))
+    return out
+
+
 def work(job):
     seed, lo, hi, feat, options = job
     out = []
+    fam = family() if lo < 0 else None
     for i in range(lo, hi):
-        prog, inputs = gen_case(seed, i, feat)
+        prog, inputs = fam[i + len(fam)] if fam is not None else gen_case(seed, i, feat)
         src = A.pp(prog)
         try:
             with common.time_limit(120):
@@ -55,8 +78,12 @@ def work(job):
     return out
 
 
-def collect(ctx, n, feat, options, chunk=25):
+def collect(ctx, n, feat, options, chunk=25, with_family=False):
     jobs = [(ctx.seed, lo, min(n, lo + chunk), feat, options) for lo in range(0, n, chunk)]
+    if with_family:
+        nf = len(family())
+        # family members get negative indices -nf .. -1 (one job: family() is rebuilt per job)
+        jobs += [(ctx.seed, -nf + lo, -nf + min(nf, lo + 64), feat, options) for lo in range(0, nf, 64)]
     with mp.Pool(16) as pool:
         res = pool.map(work, jobs)
     return [r for out in res for r in out]
@@ -75,7 +102,7 @@ def sem_batch(ctx, recs):
 
 def run(ctx, args):
     n = 300 if ctx.tier == "quick" else 4000
-    recs = collect(ctx, n, FEAT, {"optimize": False})
+    recs = collect(ctx, n, FEAT, {"optimize": False}, with_family=True)
     if any(r.get("hook_ok") is False for r in recs):
         raise common.Machinery("compiler hook silent (NSL_VERIF hook missing from the tree under test?)")
     progs, cases = sem_batch(ctx, recs)
@@ -116,7 +143,7 @@ def run(ctx, args):
         raise common.Machinery(f"only {judged} of {len(cases)} runs were judged: the generator drifted out of the property's domain")
     return common.finish(
         ctx, level="model_checking", evaluations=len(cases), distinct_nontrivial=len(nontrivial),
-        rule=f"{n} seeded programs of the scalar core (int/float scalars, local arrays and structs, all 13 operators, = += -= *= /=, ++/--, if/else, "
+        rule=f"a deterministic family of {len(family())} programs (13 operators x declared types x initialiser kinds of both operands) and {n} seeded programs of the scalar core (int/float scalars, local arrays and structs, all 13 operators, = += -= *= /=, ++/--, if/else, "
              "for/while/do with break/continue, early return, globals, calls) x 3 inputs; each case is one behaviour of NslSem in TLC "
              "(invariants Finished, FrameExists, GlobalsStable; properties FrameIsolation, CallDiscipline) and one run of the real compiler + VM; "
              "returned value and final globals compared exactly. distinct_nontrivial = programs with at least one judged run of more than 40 reference steps.",
